@@ -468,7 +468,12 @@ class BindStateBase:
         try:  # shield: a timeout must not cancel the future (it is given an exception)
             await asyncio.wait_for(asyncio.shield(self._fut), timeout)
         except TimeoutError:
-            self._handle_wait_timer_expired(timeout)
+            if self._fut.done() and self._context.state is self:
+                # the awaited pkt arrived as the timeout fell due: it counts as arrived
+                if not self._fut.cancelled() and self._fut.exception() is None:
+                    self._set_context_state(self._next_ctx_state)
+            else:
+                self._handle_wait_timer_expired(timeout)
         except exc.BindingError:
             pass  # the state's own timer expired first: the context has already failed
         else:
